@@ -314,6 +314,21 @@ def gen_model(rng, allow_arith=False, need_shared=0):
         return gen_prior(rng)
 
     def comp(depth=0):
+        c = comp0(depth)
+        if comp_free(c) == 0 and rng.random() < 0.93:
+            # a component without any free parameter is its own (rare) class of the stream
+            ks = sorted(a for a, p in c["args"].items() if p[0] == "C")
+            free[0] += 1
+            if ks:
+                c["args"][ks[0]] = gen_prior(rng)
+            else:
+                for p in c["args"].values():
+                    if p[0] == "T":
+                        p[1][0] = gen_prior(rng)
+                        break
+        return c
+
+    def comp0(depth=0):
         cls = rng.choice(["K1", "K2", "K2", "K3", "KT", "KN"] if depth == 0 else ["K1", "K2"])
         args = {}
         if cls == "K1":
@@ -337,6 +352,8 @@ def gen_model(rng, allow_arith=False, need_shared=0):
         c = comp()
         c["name"] = "g%d" % i
         comps.append(c)
+    if not collection and comps[0]["cls"] in ("KT", "KN") and rng.random() < 0.85:
+        collection = True
     # every shared prior demanded by a grid must appear in the model
     for k in range(need_shared):
         if k not in used_shared:
@@ -572,6 +589,7 @@ def folder_of(e):
         "model": digest(rc["model"]) if rc.get("model") is not None else (e.get("model_digest") or ""),
         "info": info_digest(e["info"]) if isinstance(e.get("info"), dict) else None,
         "samples": samples_of(e),
+        "load_error": rc.get("load_error"),
         "jsons": json_names(e),
         "analyses": [sorted(a.get("json_digests", {}).keys()) for a in e.get("analyses", [])],
     }
@@ -616,10 +634,10 @@ def c_strs(l):
 def c_folder(f):
     return ("{| f_path := %s; f_metadata := %s; f_completed := %s; f_marker := %s; f_parent_file := %s; "
             "f_written_id := %s; f_class := %s; f_keys := %s; f_name := %s; f_tag := %s; f_reload_id := %s; "
-            "f_model := %s; f_info := %s; f_samples := %s; f_jsons := %s; f_analyses := %s |}") % (
+            "f_model := %s; f_info := %s; f_samples := %s; f_load_error := %s; f_jsons := %s; f_analyses := %s |}") % (
         c_strs(f["path"]), cbool(f["metadata"]), cbool(f["completed"]), c_ostr(f["marker"]), c_ostr(f["parent_file"]),
         cstr(f["written_id"]), cstr(f["cls"]), c_strs(f["keys"]), cstr(f["name"]), c_ostr(f["tag"]), cstr(f["reload_id"]),
-        cstr(f["model"]), c_ostr(f["info"]), c_samples(f["samples"]), c_strs(f["jsons"]),
+        cstr(f["model"]), c_ostr(f["info"]), c_samples(f["samples"]), c_ostr(f.get("load_error")), c_strs(f["jsons"]),
         clist([c_strs(a) for a in f["analyses"]]))
 
 
@@ -657,6 +675,8 @@ def spec_of(f, rec, entry):
         "cls": (entry or {}).get("search_cls") or "ScriptedSearch", "keys": (entry or {}).get("search_keys") or [],
         "reload_id": rc.get("id") or "",
         "model": digest(rec["model"]), "info": info_digest(f.get("info")),
+        "stored_model": digest(rc["model"]) if rc.get("model") is not None else digest(rec["model"]),
+        "load_error": rc.get("load_error"),
         "samples": samples, "interrupt": {None: "NoInterrupt", "before_samples": "BeforeSamples", "after_samples": "AfterSamples"}[sc.get("interrupt")],
         "extra": ["attr"] if na == 1 else [], "analyses": [["attr"]] * na if na > 1 else [],
     }
@@ -664,9 +684,9 @@ def spec_of(f, rec, entry):
 
 def c_spec(s):
     return ("{| fs_prefix := %s; fs_tag := %s; fs_name := %s; fs_id := %s; fs_class := %s; fs_keys := %s; fs_reload_id := %s; "
-            "fs_model := %s; fs_info := %s; fs_samples := %s; fs_interrupt := %s; fs_extra_jsons := %s; fs_analyses := %s |}") % (
+            "fs_model := %s; fs_stored_model := %s; fs_load_error := %s; fs_info := %s; fs_samples := %s; fs_interrupt := %s; fs_extra_jsons := %s; fs_analyses := %s |}") % (
         c_strs(s["prefix"]), c_ostr(s["tag"]), cstr(s["name"]), cstr(s["id"]), cstr(s["cls"]), c_strs(s["keys"]), cstr(s["reload_id"]),
-        cstr(s["model"]), c_ostr(s["info"]), clist([c_sample(x) for x in s["samples"]]), s["interrupt"], c_strs(s["extra"]),
+        cstr(s["model"]), cstr(s["stored_model"]), c_ostr(s["load_error"]), c_ostr(s["info"]), clist([c_sample(x) for x in s["samples"]]), s["interrupt"], c_strs(s["extra"]),
         clist([c_strs(a) for a in s["analyses"]]))
 
 
